@@ -82,6 +82,11 @@ NumVerdict(r) ==
            ELSE LET q == r.n
                     fl == IF q >= 0 THEN a[1].n \div (a[1].d * Pow2(q)) ELSE (a[1].n * Pow2(-q)) \div a[1].d
                 IN  IF r.out.b = (fl % 2 = 1) THEN "ok" ELSE "bit"
+      [] r.op = "conv_dy" ->
+           \* conversions of values with exponents far outside TLC's integers: operand and result travel as
+           \* normalised (s, c, e) triples (c odd), so "exactly the same value" is equality of triples
+           IF haserr THEN "ok"
+           ELSE IF r.out.s = r.x.s /\ r.out.c = r.x.c /\ r.out.e = r.x.e THEN "ok" ELSE "conversion-wide"
       [] r.op = "hashtable" ->
            LET R == r.rows  I == 1..Len(R)
            IN  IF \E i, j \in I : SameVal(Canon(R[i].v), Canon(R[j].v)) /\ R[i].v.k # "nan" /\ R[i].h # R[j].h
